@@ -24,14 +24,15 @@ Definition all_zero (d : list Z) : bool := forallb (Z.eqb 0%Z) d.
 
 (* mode 2: length, None pattern, shapes and values are compared.
    mode 1: the expression contains a node whose matrix is not affine in its leaves (Root, Chol, Mul): the unit-step
-           coefficient of the model's default path is not the derivative there; length, None pattern and shapes only.
+           coefficient of the model's default path is not the derivative there (it may vanish where the derivative does
+           not and vice versa); tuple length and shapes only.
    mode 0: the expression contains a class that is modelled for routing only (Opaque: no sizes, so also the
            square / non-square branch of BatchRepeat is unknown): tuple length, and a None of the model must be a None *)
 Definition cmp_slot (mode : nat) (m : option (tensor ZK)) (o : obs_slot) : nat :=
   match m, o with
   | None, None => 0
   | None, Some (_, d) => if all_zero d then 0 else 2
-  | Some t, None => if mode =? 0 then 0 else if mode =? 1 then 2 else if all_zero (to_flat ZK t) then 0 else 2
+  | Some t, None => if mode <? 2 then 0 else if all_zero (to_flat ZK t) then 0 else 2
   | Some t, Some (sh, d) =>                      (* nested ifs: vm_compute must not evaluate the values in modes 0, 1 *)
       if mode =? 0 then 0
       else if negb (list_nat_eqb (tshape ZK t) sh) then 3
@@ -39,10 +40,16 @@ Definition cmp_slot (mode : nat) (m : option (tensor ZK)) (o : obs_slot) : nat :
       else if list_Z_eqb (to_flat ZK t) d then 0 else 4
   end.
 
-Fixpoint cmp_slots (full : nat) (ms : list (option (tensor ZK))) (os : list obs_slot) : nat :=
+(* what the implementation returns for a tensor that does not require grad (or is not floating) is dropped by autograd:
+   such slots only have to exist (alignment), their content is not compared *)
+Definition wants_grad (v : leafval ZK) : bool := match v with LF _ _ true => true | _ => false end.
+
+Fixpoint cmp_slots (full : nat) (rep : list (leafval ZK)) (ms : list (option (tensor ZK))) (os : list obs_slot) : nat :=
   match ms, os with
   | [], [] => 0
-  | m :: ms', o :: os' => match cmp_slot full m o with 0 => cmp_slots full ms' os' | c => c end
+  | m :: ms', o :: os' =>
+      let here := match rep with v :: _ => if wants_grad v then cmp_slot full m o else 0 | [] => cmp_slot full m o end in
+      match here with 0 => cmp_slots full (tl rep) ms' os' | c => c end
   | _, _ => 1
   end.
 
@@ -54,7 +61,7 @@ Definition check_with (fx : fixes) (c : case) : nat :=
   match c_obs c with
   | None => if c_full c =? 0 then 0 else if bd_raises ZK (c_e c) then 0 else 5
   | Some os => if negb (c_full c =? 0) && bd_raises ZK (c_e c) then 5      (* mode 0: opaque nodes have no sizes *)
-               else cmp_slots (c_full c) (alg_bd ZK fx (c_e c) (c_U c) (c_V c)) os
+               else cmp_slots (c_full c) (representation ZK (c_e c)) (alg_bd ZK fx (c_e c) (c_U c) (c_V c)) os
   end.
 
 Definition all_fixes : list fixes :=
